@@ -2602,11 +2602,10 @@ impl<'de, 'e> de::Deserializer<'de> for YamlDeserializer<'de, 'e> {
                     // a value written in place keep their own positions.
                     let written_in_place =
                         events.first().map(|ev| ev.location()) == Some(reference_location);
-                    let mut replay = if written_in_place {
-                        ReplayEvents::new(events)
-                    } else {
-                        ReplayEvents::with_reference(events, reference_location)
-                    };
+                    let mut replay = ReplayEvents::new(events);
+                    if !written_in_place {
+                        replay.ref_override = Some(reference_location);
+                    }
 
                     // Definition-site location: where the node is defined in the YAML.
                     // For aliases, this will point at the anchor definition.
